@@ -66,7 +66,43 @@ def parse_many(ctx, texts, hashseed=0, workers=8):
     return pickle.loads((d / 'out.pkl').read_bytes())
 
 
+def history_parse(ctx, texts):
+    """ONE client process, ONE path: the file is re-written with each text in turn and parsed again"""
+    d = Path(tempfile.mkdtemp(dir=ctx.scratch))
+    (d / 'in.pkl').write_bytes(pickle.dumps(texts))
+    p = subprocess.run(['timeout', '900', sys.executable, '-B', '-m', 'lib.c10_report', '--history', str(d / 'in.pkl'), str(d / 'out.pkl')],
+                       env=dict(os.environ, PYTHONHASHSEED='0'), capture_output=True, text=True)
+    if p.returncode != 0:
+        raise RuntimeError('client history failed: ' + (p.stdout + p.stderr)[-1500:])
+    return pickle.loads((d / 'out.pkl').read_bytes())
+
+
+def _history_main(argv):
+    from geophires_x_client.geophires_x_result import GeophiresXResult
+    logging.disable(logging.CRITICAL)
+    texts = pickle.loads(Path(argv[2]).read_bytes())
+    path = str(Path(argv[2]).parent / 'report.out')
+    out = []
+    for t in texts:
+        with open(path, 'w', encoding='ascii', newline='') as f:
+            f.write(t)
+        r = {'raised': None, 'result': None, 'csv': None, 'csv_raised': None}
+        try:
+            g = GeophiresXResult(path)
+            r['result'] = {k: v for k, v in g.result.items() if k != 'metadata'}
+            try:
+                r['csv'] = g.as_csv()
+            except Exception as e:  # noqa
+                r['csv_raised'] = type(e).__name__
+        except Exception as e:  # noqa
+            r['raised'] = type(e).__name__
+        out.append(r)
+    Path(argv[3]).write_bytes(pickle.dumps(out))
+
+
 def _main(argv):
+    if argv[1] == '--history':
+        return _history_main(argv)
     from concurrent.futures import ProcessPoolExecutor
     logging.disable(logging.CRITICAL)
     import geophires_x_client.geophires_x_result  # noqa: F401  (once, before the workers are forked)
